@@ -165,3 +165,15 @@ Proof.
   - apply Qeq_bool_iff. apply andb_prop in H. tauto.
   - apply IH. apply andb_prop in H. tauto.
 Qed.
+
+(* slices respect pointwise equality *)
+Lemma veq_firstn a b : veq a b -> forall n, veq (firstn n a) (firstn n b).
+Proof. induction 1 as [|x y a b Hxy _ IH]; intros [|n]; cbn [firstn]; constructor; auto. Qed.
+Lemma veq_skipn a b : veq a b -> forall n, veq (skipn n a) (skipn n b).
+Proof. induction 1 as [|x y a b Hxy Hab IH]; intros [|n]; cbn [skipn]; try constructor; auto. Qed.
+Lemma drop_last_veq k a b : veq a b -> veq (drop_last k a) (drop_last k b).
+Proof. intros H. unfold drop_last. rewrite (veq_length _ _ H). apply veq_firstn. exact H. Qed.
+Lemma take_last_veq k a b : veq a b -> veq (take_last k a) (take_last k b).
+Proof. intros H. unfold take_last. rewrite (veq_length _ _ H). apply veq_skipn. exact H. Qed.
+Lemma peval_Qeq p x y : x == y -> peval p x == peval p y.
+Proof. intros E. induction p as [|a p IH]; cbn [peval]; [reflexivity|]. rewrite IH, E. reflexivity. Qed.
